@@ -1,6 +1,6 @@
 SPECIFICATION Spec
 CONSTANTS TokBoost = 3
   SubjBoost = 0
-  Fams = {"core", "brk", "cls", "nocase", "utf", "extop", "extmix", "extbr", "fname", "fncase", "fnext", "path"}
+  Fams = {"core", "brk", "cls", "nocase", "utf", "extop", "extmix", "extbr", "fname", "fnbrk", "fncase", "fnext", "path"}
 INVARIANTS LiteralLaw EmitInv
 VIEW StateKey
